@@ -286,6 +286,44 @@ fn via_parsers(ctx: &mut Ctx) {
             ctx.count("via:rel-sections-with-arbitrary-sh_entsize");
         }
     }
+    // header tables under a declared entry size other than the structure's: whatever a parser hands out (if it opens
+    // the file at all) is a coherent table: iteration, get and len agree, and every item decodes from one place
+    if ctx.rng.chance(1, 4) {
+        let mut t = b.bytes.clone();
+        for (name, st_) in [("ehdr.e_shentsize", St::Shdr), ("ehdr.e_phentsize", St::Phdr)] {
+            if ctx.rng.bool() {
+                continue;
+            }
+            let es = size_of(st_, enc.c64) as u64;
+            let v = *ctx.rng.pick(&[es + 8, es + 16, 2 * es, es + 1, es + 4, es - 8, es / 2, 3 * es]);
+            if let Some(f) = b.field(name) {
+                b.enc.put_at(&mut t, f.off, v, f.w);
+            }
+        }
+        ctx.set_input(&t);
+        ctx.count("via:header-tables-under-other-entsize");
+        if let Ok(f) = super::util::open_slice(&t) {
+            ctx.count("via:header-tables-under-other-entsize:opened");
+            if let Some(tab) = f.section_headers() {
+                let items: Vec<String> = tab.iter().take(70000).map(|x| format!("{x:?}")).collect();
+                let gets: Vec<String> = (0..tab.len().min(70000)).map(|i| format!("{:?}", tab.get(i).ok())).collect();
+                let want: Vec<String> = items.iter().map(|x| format!("Some({x})")).collect();
+                if items.len() != tab.len() || gets != want {
+                    ctx.violation("via:header-table:shdrs:incoherent", format!("section header table handed out by ElfBytes: len {} but iteration yields {}; get(i) == i-th item: {}", tab.len(), items.len(), gets == want));
+                    return;
+                }
+            }
+            if let Some(tab) = f.segments() {
+                let items: Vec<String> = tab.iter().take(70000).map(|x| format!("{x:?}")).collect();
+                let gets: Vec<String> = (0..tab.len().min(70000)).map(|i| format!("{:?}", tab.get(i).ok())).collect();
+                let want: Vec<String> = items.iter().map(|x| format!("Some({x})")).collect();
+                if items.len() != tab.len() || gets != want {
+                    ctx.violation("via:header-table:phdrs:incoherent", format!("program header table handed out by ElfBytes: len {} but iteration yields {}; get(i) == i-th item: {}", tab.len(), items.len(), gets == want));
+                    return;
+                }
+            }
+        }
+    }
     let data = &b.bytes[..];
     ctx.set_input(data);
     let Ok(r) = ref_open(data, &[1, 2]) else { return };
